@@ -2,6 +2,7 @@ import Driver.Common
 import OidcModel.Spec.FlowObs
 import Driver.C07WireMon
 import Driver.C07FaultMon
+import Driver.C07AudMon
 open Kv Drv
 
 namespace Drv.Flow
@@ -99,6 +100,8 @@ def monStep (ms : MonSt) (l : Line) : MonSt × Option String × Option String :=
       let (_, a1, b1) := FlowObs.observeF (int l "now1") ms e
       let v04 := if a0.isSome && a1.isSome then a0 else none
       let v07 := if b0.isSome && b1.isSome then b0 else none
+      -- deep5-C07: the audiences of the new tokens against the ORIGINAL grant (Spec/C07Aud.lean; lines with `o.auds` only)
+      let v07 := Wire.audVerdict ms l v07
       let v04 := match v04 with
         | none =>
           if str l "obs" == "ok" && !has l "o.handed" && has l "o.idsub" && (str l "o.idsub" != str l "o.sub" || str l "o.azp" != str l "o.client")
